@@ -6,6 +6,7 @@
    g3.valid_exts            ( K st nodes valid )           -> ( exts .. )   get_valid_exts; valid = ( ) | ( ( ids ) )
    g3.max_path              ( K st nodes )                 -> path | !
    g3.seq_of_path           ( K nodes path )               -> dna | !
+   g3.max_path_beam         ( K st nodes beam )            -> path | !      max_path_beam (repaired code), integer scores
    f3.remove_censored       ( st ( ( kmer exts ) .. ) )    -> ( exts .. )
    f3.remove_censored_sharded ( st tbl ( kmer .. ) )       -> ( exts .. )
    chk.c03.graph_ok / chk.c03.valid   ( K st nodes )       -> 1
@@ -14,7 +15,7 @@
    chk.c03.walk / chk.c03.maxpath     ( K st nodes path seq ) -> 1
    chk.c03.pruned ( st tbl new )  chk.c03.pruned_sharded ( st tbl all new ) -> 1 *)
 From Coq Require Import NArith ZArith List Bool String.
-From DBG Require Import Interop.Val Spec.Dna Spec.GraphIndex Packed.ExtsModel Algo.Compress Algo.GraphModel
+From DBG Require Import Interop.Val Spec.Dna Spec.GraphIndex Packed.ExtsModel Algo.Compress Algo.GraphModel Algo.Beam
   Spec.EdgeSpec Check.EdgeCheck.
 Import ListNotations.
 Open Scope N_scope.
@@ -98,6 +99,10 @@ Definition edges_ops : list (string * handler) :=
     ("g3.max_path"%string, fun a => match a with [VN k; st; ns] =>
         match vbool st, v3_nodes ns with
         | Some s, Some g => Some (ofopt of3_path (max_path pay3 (N.to_nat k) s score3 solid3 g))
+        | _, _ => None end | _ => None end);
+    ("g3.max_path_beam"%string, fun a => match a with [VN k; st; ns; VN beam] =>
+        match vbool st, v3_nodes ns with
+        | Some s, Some g => Some (ofopt of3_path (max_path_beam pay3 (N.to_nat k) s score3 false g (N.to_nat beam)))
         | _, _ => None end | _ => None end);
     ("g3.seq_of_path"%string, fun a => match a with [VN k; ns; p] =>
         match v3_nodes ns, v3_path p with
